@@ -1,6 +1,8 @@
 (* Properties/C02.v — Versioning: every live version stays addressable and latest is newest (M-META). *)
 From Verif Require Import Bytes Codec Md5 Meta MetaBasics MetaWitness.
+From Verif Require Import MetaPartsDefs MetaParts MetaPartsOps MetaPartsOwned.
 From Verif Require Import MetaRows1 MetaRows2 MetaRows3 MetaRows4 MetaRows5 MetaRows6 MetaRows7 MetaRows8 MetaRows9.
+From Verif Require Import MetaRows11 MetaRows13 MetaRows15.
 
 (* at most one current version per key, version ids unique per key, in every reachable state *)
 Theorem C02_reachable_unique_latest : forall ops,
@@ -133,3 +135,15 @@ Example C02_ex_delete_marker_hyps :
   snd (run [OMb wb; OVer wb VSuspended; OPut wb wk cA CRNone; ODel wb wk VRNone CRNone]) =
   [ROk; ROk; RPut VNull (mk_md5 cA); RDel (Some (VId 3)) true].
 Proof. vm_compute. reflexivity. Qed.
+
+(* … and in the Enabled state a key-only delete keeps the null version as well (nothing at all is destroyed) *)
+Theorem C02_enabled_key_only_delete_keeps_null : forall i hist s b k cr r,
+  (NoDup (map o_id (objs s)) /\ (forall x, In x (objs s) -> (o_id x < next_id s)%N)) /\
+  (unique_ok s = true /\ parts_unique_ok s = true) ->
+  option_map b_ver (find_bucket s b) = Some VEnabled -> find_version s b k VNull = Some r ->
+  exists r', find_version (fst (step i hist s (ODel b k VRNone cr))) b k VNull = Some r' /\
+    o_id r' = o_id r /\ o_etag r' = o_etag r /\ o_size r' = o_size r /\ o_dm r' = o_dm r /\
+    o_ctype r' = o_ctype r /\ o_created r' = o_created r /\
+    obj_parts (fst (step i hist s (ODel b k VRNone cr))) (o_id r') = obj_parts s (o_id r).
+Proof. exact delete_enabled_keeps_null_out. Qed.
+Print Assumptions C02_enabled_key_only_delete_keeps_null.
